@@ -5,6 +5,7 @@ result given as a hypothesis (never unfold a C08 decoder on a buffer with litera
 -/
 import Bee2V.C17.CvcCode
 import Bee2V.C17.LemmasCVC
+import Bee2V.C08.LemmasSid
 namespace Bee2V.C17
 open Bee2V.C08
 open Bee2V.Gen.C17Src (nameMin nameMax keyBits)
@@ -27,5 +28,592 @@ theorem decHatEid_present (body : Bytes) (p : Nat) (a : Anchor) (t t1 t2 : Nat) 
   unfold decHatEid; rw [h0]
   simp only [h1, R_bind_ok, h2, h3, h4]
   rfl
+
+theorem decHatEsign_absent (body : Bytes) (p : Nat) (h : derStartsWith (body.drop p) 0x65 = .err) :
+    decHatEsign body p = .ok (zeros 2, p) := by
+  unfold decHatEsign; rw [h]
+
+theorem decHatEsign_present (body : Bytes) (p : Nat) (aE aD aH : Anchor) (tE tD tO tH tO2 tV : Nat) (hat : Bytes)
+    (h0 : derStartsWith (body.drop p) 0x65 = .ok ())
+    (h1 : derTSEQDecStart (body.drop p) 0x65 = .ok (aE, tE))
+    (h2 : derTSEQDecStart (body.drop (p + tE)) 0x73 = .ok (aD, tD))
+    (h3 : derOIDDec2 (body.drop (p + tE + tD)) oid_esign_auth_ext = .ok tO)
+    (h4 : derTSEQDecStart (body.drop (p + tE + tD + tO)) 0x7F4C = .ok (aH, tH))
+    (h5 : derOIDDec2 (body.drop (p + tE + tD + tO + tH)) oid_esign_access = .ok tO2)
+    (h6 : derTOCTDec2 (body.drop (p + tE + tD + tO + tH + tO2)) 4 2 = .ok (hat, tV))
+    (h7 : derTSEQDecStop (p + tE + tD + tO + tH + tO2 + tV - (p + tE + tD + tO)) aH = .ok ())
+    (h8 : derTSEQDecStop (p + tE + tD + tO + tH + tO2 + tV - (p + tE)) aD = .ok ())
+    (h9 : derTSEQDecStop (p + tE + tD + tO + tH + tO2 + tV - p) aE = .ok ()) :
+    decHatEsign body p = .ok (hat, p + tE + tD + tO + tH + tO2 + tV) := by
+  unfold decHatEsign; rw [h0]
+  simp only [h1, R_bind_ok, h2, h3, h4, h5, h6, h7, h8, h9]
+  rfl
+
+theorem guard_true : guard true = .ok () := rfl
+
+/-- control flow of btokCVCBodyDec -/
+theorem bodyDec_core (body : Bytes) (aB aP : Anchor) (t0 tv ta tp to tb th tf tu p8 p11 bits : Nat)
+    (auth holder pk fr un he hs : Bytes)
+    (H1 : derTSEQDecStart body 0x7F4E = .ok (aB, t0))
+    (H2 : derTSIZEDec2 (body.drop t0) 0x5F29 0 = .ok tv)
+    (H3 : derTPSTRDec (body.drop (t0 + tv)) 0x42 = .ok (auth, ta))
+    (G3 : (decide (nameMin ≤ auth.length) && decide (auth.length ≤ nameMax)) = true)
+    (H4 : derTSEQDecStart (body.drop (t0 + tv + ta)) 0x7F49 = .ok (aP, tp))
+    (H5 : derOIDDec2 (body.drop (t0 + tv + ta + tp)) oid_pubkey = .ok to)
+    (H6 : derTBITDec (body.drop (t0 + tv + ta + tp + to)) 3 = .ok (pk, bits, tb))
+    (G6 : keyBits.contains bits = true)
+    (H7 : derTSEQDecStop (t0 + tv + ta + tp + to + tb - (t0 + tv + ta)) aP = .ok ())
+    (H8 : derTPSTRDec (body.drop (t0 + tv + ta + tp + to + tb)) 0x5F20 = .ok (holder, th))
+    (G8 : (decide (nameMin ≤ holder.length) && decide (holder.length ≤ nameMax)) = true)
+    (H9 : decHatEid body (t0 + tv + ta + tp + to + tb + th) = .ok (he, p8))
+    (H10 : derTOCTDec2 (body.drop p8) 0x5F25 6 = .ok (fr, tf))
+    (H11 : derTOCTDec2 (body.drop (p8 + tf)) 0x5F24 6 = .ok (un, tu))
+    (H12 : decHatEsign body (p8 + tf + tu) = .ok (hs, p11))
+    (H13 : derTSEQDecStop p11 aB = .ok ()) :
+    bodyDec body = .ok (⟨auth, holder, pk, fr, un, he, hs, []⟩, p11) := by
+  unfold bodyDec
+  simp only [H1, R_bind_ok, H2, H3, G3, guard_true, H4, H5, H6, G6, H7, H8, G8, H9, H10, H11, H12, H13]
+  rfl
+
+/-! ### Layer 2: the primitive decoders on `tlvC` codes (tags are variables here; instantiate, never unfold) -/
+
+theorem tlvC_length (tag : Nat) (v : Bytes) :
+    (tlvC tag v).length = tCount tag + (derLEnc v.length).length + v.length := by
+  simp only [tlvC, List.length_append, beBytes_length]
+
+theorem tlvC_le (tag : Nat) (v : Bytes) (hlt : tag < U32) (hl : v.length < W) :
+    2 ≤ (tlvC tag v).length ∧ (tlvC tag v).length ≤ 13 + v.length := by
+  rw [tlvC_length]
+  have h4 := tCount_le4 tag hlt
+  have h9 := derLEnc_le9 v.length hl
+  omega
+
+theorem tlvC_eq_derEnc (tag : Nat) (v : Bytes) (hv : derTIsValid tag = true) : derEnc tag v = .ok (tlvC tag v) :=
+  derEnc_eq tag v hv
+
+theorem seqStart_tlvC (tag : Nat) (content rest : Bytes) (hv : derTIsValid tag = true)
+    (hc : derTIsConstructive tag = true) (hlt : tag < U32) (hl : content.length < SIZE_MAX) :
+    derTSEQDecStart (tlvC tag content ++ rest) tag =
+      .ok (⟨0, tag, content.length⟩, tCount tag + (derLEnc content.length).length) :=
+  derTSEQDecStart_enc tag content rest hv hc hlt hl
+
+theorem startsWith_tlvC (tag tag' : Nat) (v rest : Bytes) (hv : derTIsValid tag = true) (hlt : tag < U32) :
+    derStartsWith (tlvC tag v ++ rest) tag' = if tag = tag' then .ok () else .err := by
+  unfold derStartsWith tlvC
+  rw [List.append_assoc, List.append_assoc, derT_roundtrip' tag hv hlt]
+
+theorem pstrDec_tlvC (tag : Nat) (v rest : Bytes) (hp : v.all (fun c => isPrintable c.toNat) = true)
+    (hv : derTIsValid tag = true) (hlt : tag < U32) (hlen : 13 + v.length + rest.length < W) :
+    derTPSTRDec (tlvC tag v ++ rest) tag = .ok (v, (tlvC tag v).length) := by
+  obtain ⟨e, he, hd⟩ := derTPSTR_roundtrip' tag v hp hv hlt rest hlen
+  unfold derTPSTREnc at he
+  rw [hp] at he
+  simp only [Bool.not_true, Bool.false_eq_true, if_false] at he
+  rw [tlvC_eq_derEnc tag v hv] at he
+  cases he
+  exact hd
+
+theorem octDec2_of_derDec (x : Bytes) (tag off len c : Nat) (v : Bytes) (h : derDec x = .ok (tag, off, len, c))
+    (hs : (x.drop off).take len = v) (hb : off + len ≤ x.length) : derTOCTDec2 x tag len = .ok (v, c) := by
+  unfold derTOCTDec2 derDec3 rdSlice
+  rw [h]
+  simp [hs, hb]
+
+theorem octDec2_tlvC (tag : Nat) (v rest : Bytes) (hv : derTIsValid tag = true) (hlt : tag < U32)
+    (hlen : 13 + v.length + rest.length < W) :
+    derTOCTDec2 (tlvC tag v ++ rest) tag v.length = .ok (v, (tlvC tag v).length) := by
+  obtain ⟨e, he, hd, hs⟩ := derEnc_roundtrip' tag v hv hlt rest hlen
+  rw [tlvC_eq_derEnc tag v hv] at he
+  cases he
+  refine octDec2_of_derDec _ _ _ _ _ _ hd hs ?_
+  have := tlvC_length tag v
+  simp only [List.length_append]; omega
+
+theorem oidDec2_oidC (oid rest : Bytes) (hok : derOIDEnc oid = .ok (oidC oid))
+    (hlen : 13 + (oidC oid).length + rest.length < W) :
+    derOIDDec2 (oidC oid ++ rest) oid = .ok (oidC oid).length :=
+  derOIDDec2_roundtrip oid (oidC oid) rest hok hlen
+
+/-! ### ground facts (each evaluated once by the kernel, never by `simp`/`whnf`) -/
+
+private theorem isOk_of {α : Type} {r : R α} (h : r.isOk = true) : ∃ a, r = .ok a := by
+  cases r with
+  | ok a => exact ⟨a, rfl⟩
+  | err => cases h
+  | oob => cases h
+
+private theorem oidC_of_isOk (oid : Bytes) (h : (derOIDEnc oid).isOk = true) : derOIDEnc oid = .ok (oidC oid) := by
+  obtain ⟨a, ha⟩ := isOk_of h
+  unfold oidC; rw [ha]
+
+private theorem g_oid_pubkey : derOIDEnc oid_pubkey = .ok (oidC oid_pubkey) := oidC_of_isOk _ (by decide +kernel)
+private theorem g_oid_eid : derOIDEnc oid_eid_access = .ok (oidC oid_eid_access) := oidC_of_isOk _ (by decide +kernel)
+private theorem g_oid_esign : derOIDEnc oid_esign_access = .ok (oidC oid_esign_access) := oidC_of_isOk _ (by decide +kernel)
+private theorem g_oid_ext : derOIDEnc oid_esign_auth_ext = .ok (oidC oid_esign_auth_ext) := oidC_of_isOk _ (by decide +kernel)
+private theorem g_oidlen_pubkey : (oidC oid_pubkey).length ≤ 20 := by decide +kernel
+private theorem g_oidlen_eid : (oidC oid_eid_access).length ≤ 20 := by decide +kernel
+private theorem g_oidlen_esign : (oidC oid_esign_access).length ≤ 20 := by decide +kernel
+private theorem g_oidlen_ext : (oidC oid_esign_auth_ext).length ≤ 20 := by decide +kernel
+private theorem g_verC : derTSIZEEnc 0x5F29 0 = .ok verC := by decide +kernel
+
+private theorem v7F4E : derTIsValid 0x7F4E = true ∧ derTIsConstructive 0x7F4E = true := by decide +kernel
+private theorem v7F49 : derTIsValid 0x7F49 = true ∧ derTIsConstructive 0x7F49 = true := by decide +kernel
+private theorem v7F4C : derTIsValid 0x7F4C = true ∧ derTIsConstructive 0x7F4C = true := by decide +kernel
+private theorem v65 : derTIsValid 0x65 = true ∧ derTIsConstructive 0x65 = true := by decide +kernel
+private theorem v73 : derTIsValid 0x73 = true ∧ derTIsConstructive 0x73 = true := by decide +kernel
+private theorem v5F29 : derTIsValid 0x5F29 = true := by decide +kernel
+private theorem v42 : derTIsValid 0x42 = true := by decide +kernel
+private theorem v5F20 : derTIsValid 0x5F20 = true := by decide +kernel
+private theorem v5F25 : derTIsValid 0x5F25 = true := by decide +kernel
+private theorem v5F24 : derTIsValid 0x5F24 = true := by decide +kernel
+private theorem v3 : derTIsValid 3 = true := by decide +kernel
+private theorem v4 : derTIsValid 4 = true := by decide +kernel
+theorem ltU32 {t : Nat} (h : t < 65536) : t < U32 := by unfold U32; omega
+
+theorem sizeDec2_verC (rest : Bytes) : derTSIZEDec2 (verC ++ rest) 0x5F29 0 = .ok 4 := by
+  obtain ⟨e, he, hd⟩ := derTSIZE_roundtrip' 0x5F29 0 v5F29 (ltU32 (by omega)) (by unfold W; omega) rest
+  rw [g_verC] at he
+  cases he
+  generalize verC ++ rest = x at hd
+  unfold derTSIZEDec2
+  rw [hd]
+  rfl
+
+/-- BIT STRING of whole octets -/
+theorem bitEnc_bitC (pk : Bytes) (h : 8 * pk.length + 15 < W) : derTBITEnc 3 pk (8 * pk.length) = .ok (bitC pk) := by
+  have e1 : (8 * pk.length + 7) % W / 8 = pk.length := by rw [Nat.mod_eq_of_lt (by omega)]; omega
+  have e2 : (8 * pk.length + 15) % W / 8 = pk.length + 1 := by rw [Nat.mod_eq_of_lt (by omega)]; omega
+  have e3 : ¬ (8 * pk.length % 8 ≠ 0) := by omega
+  unfold derTBITEnc
+  simp only [e1, e2, e3, if_false, derTEnc_ok 3 v3, rdSlice, Nat.zero_add, Nat.le_refl, if_true, List.drop_zero,
+    List.take_length]
+  simp only [bitC, tlvC, List.length_cons, List.append_assoc]
+
+theorem bitDec_bitC (pk rest : Bytes) (hlen : 40 + pk.length + rest.length < W) (h8 : 8 * pk.length + 15 < W) :
+    derTBITDec (bitC pk ++ rest) 3 = .ok (pk, 8 * pk.length, (bitC pk).length) := by
+  obtain ⟨e, he, hd⟩ := derTBIT_roundtrip' 3 pk (8 * pk.length) (by omega) v3 (ltU32 (by omega)) rest (by omega) h8
+  rw [bitEnc_bitC pk h8] at he
+  cases he
+  have hc : bitClean pk (8 * pk.length) = pk := by
+    unfold bitClean
+    have : ¬ (8 * pk.length % 8 ≠ 0) := by omega
+    rw [if_neg this]
+  rw [hc] at hd
+  exact hd
+
+theorem isZero_eq_zeros (b : Bytes) (h : isZero b = true) : b = zeros b.length := by
+  induction b with
+  | nil => rfl
+  | cons x xs ih =>
+    simp only [isZero, List.all_cons, Bool.and_eq_true, beq_iff_eq] at h
+    have := ih (by simpa [isZero] using h.2)
+    rw [h.1]
+    simp only [List.length_cons, zeros, Bee2V.C01.zeros, List.replicate_succ]
+    congr 1
+
+/-! ### Layer 3: the optional parts on their explicit codes -/
+
+theorem drop_at (pre tail : Bytes) (k : Nat) (hk : k = pre.length) : (pre ++ tail).drop k = tail := by
+  subst hk; exact List.drop_left' rfl
+
+/-- head of a tlvC code: T ‖ L -/
+def tlHd (tag : Nat) (content : Bytes) : Bytes := beBytes (tCount tag) tag ++ derLEnc content.length
+
+theorem tlvC_split (tag : Nat) (content : Bytes) : tlvC tag content = tlHd tag content ++ content := by
+  simp only [tlvC, tlHd]
+
+theorem tlHd_length (tag : Nat) (content : Bytes) :
+    (tlHd tag content).length = tCount tag + (derLEnc content.length).length := by
+  simp only [tlHd, List.length_append, beBytes_length]
+
+theorem hatEid_fact (c : Cvc) (body pre post' x : Bytes) (hb : body = pre ++ (hatEidC c ++ (tlvC 0x5F25 x ++ post')))
+    (he : c.hatEid.length = 5) (hpost : post'.length + x.length + 100 < W) :
+    decHatEid body pre.length = .ok (c.hatEid, pre.length + (hatEidC c).length) := by
+  by_cases hz : isZero c.hatEid = true
+  · have hC : hatEidC c = [] := by simp [hatEidC, hz]
+    have hd : body.drop pre.length = tlvC 0x5F25 x ++ post' := by rw [hb, hC]; exact drop_at _ _ _ rfl
+    have h0 : derStartsWith (body.drop pre.length) 0x7F4C = .err := by
+      rw [hd, startsWith_tlvC 0x5F25 0x7F4C x post' v5F25 (ltU32 (by omega))]
+      rfl
+    rw [decHatEid_absent body _ h0, hC]
+    have := isZero_eq_zeros c.hatEid hz
+    rw [he] at this
+    rw [this]; rfl
+  · have hz' : isZero c.hatEid = false := by simpa using hz
+    have hC : hatEidC c = tlvC 0x7F4C (oidC oid_eid_access ++ tlvC 4 c.hatEid) := by simp [hatEidC, hz']
+    generalize hO : oidC oid_eid_access = O at *
+    have hOl : O.length ≤ 20 := by rw [← hO]; exact g_oidlen_eid
+    generalize hV : tlvC 4 c.hatEid = V at *
+    have hVl := tlvC_le 4 c.hatEid (ltU32 (by omega)) (by rw [he]; unfold W; omega)
+    rw [hV, he] at hVl
+    have hlenOV : (O ++ V).length < SIZE_MAX := by simp only [List.length_append]; unfold SIZE_MAX; omega
+    have hd : body.drop pre.length = tlvC 0x7F4C (O ++ V) ++ (tlvC 0x5F25 x ++ post') := by
+      rw [hb, hC]; exact drop_at _ _ _ rfl
+    have h0 : derStartsWith (body.drop pre.length) 0x7F4C = .ok () := by
+      rw [hd, startsWith_tlvC 0x7F4C 0x7F4C _ _ v7F4C.1 (ltU32 (by omega))]; rfl
+    have h1 : derTSEQDecStart (body.drop pre.length) 0x7F4C =
+        .ok (⟨0, 0x7F4C, (O ++ V).length⟩, (tlHd 0x7F4C (O ++ V)).length) := by
+      rw [hd, tlHd_length]
+      exact seqStart_tlvC 0x7F4C (O ++ V) _ v7F4C.1 v7F4C.2 (ltU32 (by omega)) hlenOV
+    have hb2 : body = (pre ++ tlHd 0x7F4C (O ++ V)) ++ (O ++ (V ++ (tlvC 0x5F25 x ++ post'))) := by
+      rw [hb, hC, tlvC_split]; simp only [List.append_assoc]
+    have h2 : derOIDDec2 (body.drop (pre.length + (tlHd 0x7F4C (O ++ V)).length)) oid_eid_access = .ok O.length := by
+      rw [hb2, drop_at _ _ _ (by simp only [List.length_append]), ← hO]
+      have hpl := tlvC_le 0x5F25 x (ltU32 (by omega)) (by omega)
+      refine oidDec2_oidC oid_eid_access _ g_oid_eid ?_
+      rw [hO]; simp only [List.length_append]; omega
+    have hb3 : body = (pre ++ tlHd 0x7F4C (O ++ V) ++ O) ++ (V ++ (tlvC 0x5F25 x ++ post')) := by
+      rw [hb2]; simp only [List.append_assoc]
+    have h3 : derTOCTDec2 (body.drop (pre.length + (tlHd 0x7F4C (O ++ V)).length + O.length)) 4 5 = .ok (c.hatEid, V.length) := by
+      rw [hb3, drop_at _ _ _ (by simp only [List.length_append]), ← hV, ← he]
+      have hpl := tlvC_le 0x5F25 x (ltU32 (by omega)) (by omega)
+      refine octDec2_tlvC 4 c.hatEid _ v4 (ltU32 (by omega)) ?_
+      simp only [List.length_append]; omega
+    have h4 : derTSEQDecStop (pre.length + (tlHd 0x7F4C (O ++ V)).length + O.length + V.length - pre.length)
+        ⟨0, 0x7F4C, (O ++ V).length⟩ = .ok () := by
+      have e : pre.length + (tlHd 0x7F4C (O ++ V)).length + O.length + V.length - pre.length =
+          tCount 0x7F4C + (derLEnc (O ++ V).length).length + (O ++ V).length := by
+        rw [tlHd_length]; simp only [List.length_append]; omega
+      have hW : tCount 0x7F4C + (derLEnc (O ++ V).length).length + (O ++ V).length < W := by
+        have h4' := tCount_le4 0x7F4C (ltU32 (by omega))
+        have hl : (O ++ V).length = O.length + V.length := List.length_append
+        have h9 := derLEnc_le9 (O ++ V).length (by rw [hl]; unfold W; omega)
+        rw [hl] at h9 ⊢
+        clear e h0 h1 h2 h3 hb hb2 hb3 hd
+        unfold W; omega
+      rw [e]
+      exact derTSEQDecStop_enc 0 0x7F4C _ v7F4C.1 hW
+    rw [decHatEid_present body pre.length _ _ _ _ _ h0 h1 h2 h3 h4, hC]
+    congr 2
+    rw [tlvC_split, List.length_append, List.length_append]; omega
+
+theorem stop_ok (tag : Nat) (content : Bytes) (pos : Nat) (hv : derTIsValid tag = true) (hlt : tag < 65536)
+    (hl : content.length < 4294967296) (hpos : pos = (tlHd tag content).length + content.length) :
+    derTSEQDecStop pos ⟨0, tag, content.length⟩ = .ok () := by
+  have h4 := tCount_le4 tag (ltU32 hlt)
+  have h9 := derLEnc_le9 content.length (by unfold W; omega)
+  rw [hpos, tlHd_length]
+  exact derTSEQDecStop_enc 0 tag _ hv (by unfold W; omega)
+
+theorem hatEsign_fact (c : Cvc) (body pre post : Bytes) (hb : body = pre ++ (hatEsignC c ++ post))
+    (hs : c.hatEsign.length = 2) (hpost : post.length + 200 < 4294967296)
+    (hnext : isZero c.hatEsign = true → derStartsWith post 0x65 = .err) :
+    decHatEsign body pre.length = .ok (c.hatEsign, pre.length + (hatEsignC c).length) := by
+  by_cases hz : isZero c.hatEsign = true
+  · have hC : hatEsignC c = [] := by simp [hatEsignC, hz]
+    have hd : body.drop pre.length = post := by rw [hb, hC]; exact drop_at _ _ _ rfl
+    have h0 : derStartsWith (body.drop pre.length) 0x65 = .err := by rw [hd]; exact hnext hz
+    rw [decHatEsign_absent body _ h0, hC]
+    have := isZero_eq_zeros c.hatEsign hz
+    rw [hs] at this
+    rw [this]; rfl
+  · have hz' : isZero c.hatEsign = false := by simpa using hz
+    have hC : hatEsignC c =
+        tlvC 0x65 (tlvC 0x73 (oidC oid_esign_auth_ext ++ tlvC 0x7F4C (oidC oid_esign_access ++ tlvC 4 c.hatEsign))) := by
+      simp [hatEsignC, hz']
+    generalize hO1 : oidC oid_esign_auth_ext = O1 at *
+    generalize hO2 : oidC oid_esign_access = O2 at *
+    have hO1l : O1.length ≤ 20 := by rw [← hO1]; exact g_oidlen_ext
+    have hO2l : O2.length ≤ 20 := by rw [← hO2]; exact g_oidlen_esign
+    generalize hV : tlvC 4 c.hatEsign = V at *
+    have hVl := tlvC_le 4 c.hatEsign (ltU32 (by omega)) (by rw [hs]; unfold W; omega)
+    rw [hV, hs] at hVl
+    -- the nested contents and their sizes
+    have hIl : (O2 ++ V).length = O2.length + V.length := List.length_append
+    have hHl := tlvC_le 0x7F4C (O2 ++ V) (ltU32 (by omega)) (by rw [hIl]; unfold W; omega)
+    generalize hH : tlvC 0x7F4C (O2 ++ V) = H at *
+    have hDl : (O1 ++ H).length = O1.length + H.length := List.length_append
+    have hDDl := tlvC_le 0x73 (O1 ++ H) (ltU32 (by omega)) (by rw [hDl]; unfold W; omega)
+    generalize hDD : tlvC 0x73 (O1 ++ H) = DD at *
+    have hEl := tlvC_le 0x65 DD (ltU32 (by omega)) (by unfold W; omega)
+    -- splits
+    have sE : tlvC 0x65 DD = tlHd 0x65 DD ++ DD := tlvC_split _ _
+    have sD : DD = tlHd 0x73 (O1 ++ H) ++ (O1 ++ H) := by rw [← hDD]; exact tlvC_split _ _
+    have sH : H = tlHd 0x7F4C (O2 ++ V) ++ (O2 ++ V) := by rw [← hH]; exact tlvC_split _ _
+    have lE := tlHd_length 0x65 DD
+    have lD := tlHd_length 0x73 (O1 ++ H)
+    have lH := tlHd_length 0x7F4C (O2 ++ V)
+    generalize htE : tlHd 0x65 DD = TE at *
+    generalize htD : tlHd 0x73 (O1 ++ H) = TD at *
+    generalize htH : tlHd 0x7F4C (O2 ++ V) = TH at *
+    have hDDlen : DD.length = TD.length + (O1.length + H.length) := by rw [sD]; simp only [List.length_append]
+    have hHlen : H.length = TH.length + (O2.length + V.length) := by rw [sH]; simp only [List.length_append]
+    -- drops
+    have d0 : body.drop pre.length = tlvC 0x65 DD ++ post := by rw [hb, hC]; exact drop_at _ _ _ rfl
+    have b1 : body = (pre ++ TE) ++ (DD ++ post) := by rw [hb, hC, sE]; simp only [List.append_assoc]
+    have d1 : body.drop (pre.length + TE.length) = tlvC 0x73 (O1 ++ H) ++ post := by
+      rw [b1, drop_at _ _ _ (by simp only [List.length_append]), hDD]
+    have b2 : body = (pre ++ TE ++ TD) ++ (O1 ++ (H ++ post)) := by
+      rw [b1]; conv => lhs; rw [sD]
+      simp only [List.append_assoc]
+    have d2 : body.drop (pre.length + TE.length + TD.length) = O1 ++ (H ++ post) := by
+      rw [b2, drop_at _ _ _ (by simp only [List.length_append])]
+    have b3 : body = (pre ++ TE ++ TD ++ O1) ++ (H ++ post) := by rw [b2]; simp only [List.append_assoc]
+    have d3 : body.drop (pre.length + TE.length + TD.length + O1.length) = tlvC 0x7F4C (O2 ++ V) ++ post := by
+      rw [b3, drop_at _ _ _ (by simp only [List.length_append]), hH]
+    have b4 : body = (pre ++ TE ++ TD ++ O1 ++ TH) ++ (O2 ++ (V ++ post)) := by
+      rw [b3]; conv => lhs; rw [sH]
+      simp only [List.append_assoc]
+    have d4 : body.drop (pre.length + TE.length + TD.length + O1.length + TH.length) = O2 ++ (V ++ post) := by
+      rw [b4, drop_at _ _ _ (by simp only [List.length_append])]
+    have b5 : body = (pre ++ TE ++ TD ++ O1 ++ TH ++ O2) ++ (V ++ post) := by rw [b4]; simp only [List.append_assoc]
+    have d5 : body.drop (pre.length + TE.length + TD.length + O1.length + TH.length + O2.length) = V ++ post := by
+      rw [b5, drop_at _ _ _ (by simp only [List.length_append])]
+    -- the decoder calls
+    have h0 : derStartsWith (body.drop pre.length) 0x65 = .ok () := by
+      rw [d0, startsWith_tlvC 0x65 0x65 _ _ v65.1 (ltU32 (by omega))]; rfl
+    have h1 : derTSEQDecStart (body.drop pre.length) 0x65 = .ok (⟨0, 0x65, DD.length⟩, TE.length) := by
+      rw [d0, lE]
+      exact seqStart_tlvC 0x65 DD _ v65.1 v65.2 (ltU32 (by omega)) (by unfold SIZE_MAX; omega)
+    have h2 : derTSEQDecStart (body.drop (pre.length + TE.length)) 0x73 = .ok (⟨0, 0x73, (O1 ++ H).length⟩, TD.length) := by
+      rw [d1, lD]
+      exact seqStart_tlvC 0x73 (O1 ++ H) _ v73.1 v73.2 (ltU32 (by omega)) (by rw [hDl]; unfold SIZE_MAX; omega)
+    have h3 : derOIDDec2 (body.drop (pre.length + TE.length + TD.length)) oid_esign_auth_ext = .ok O1.length := by
+      rw [d2, ← hO1]
+      refine oidDec2_oidC oid_esign_auth_ext _ g_oid_ext ?_
+      rw [hO1]; simp only [List.length_append]; unfold W; omega
+    have h4 : derTSEQDecStart (body.drop (pre.length + TE.length + TD.length + O1.length)) 0x7F4C =
+        .ok (⟨0, 0x7F4C, (O2 ++ V).length⟩, TH.length) := by
+      rw [d3, lH]
+      exact seqStart_tlvC 0x7F4C (O2 ++ V) _ v7F4C.1 v7F4C.2 (ltU32 (by omega)) (by rw [hIl]; unfold SIZE_MAX; omega)
+    have h5 : derOIDDec2 (body.drop (pre.length + TE.length + TD.length + O1.length + TH.length)) oid_esign_access = .ok O2.length := by
+      rw [d4, ← hO2]
+      refine oidDec2_oidC oid_esign_access _ g_oid_esign ?_
+      rw [hO2]; simp only [List.length_append]; unfold W; omega
+    have h6 : derTOCTDec2 (body.drop (pre.length + TE.length + TD.length + O1.length + TH.length + O2.length)) 4 2 =
+        .ok (c.hatEsign, V.length) := by
+      rw [d5, ← hV, ← hs]
+      refine octDec2_tlvC 4 c.hatEsign _ v4 (ltU32 (by omega)) ?_
+      unfold W; omega
+    have h7 : derTSEQDecStop (pre.length + TE.length + TD.length + O1.length + TH.length + O2.length + V.length -
+        (pre.length + TE.length + TD.length + O1.length)) ⟨0, 0x7F4C, (O2 ++ V).length⟩ = .ok () := by
+      refine stop_ok 0x7F4C (O2 ++ V) _ v7F4C.1 (by omega) (by rw [hIl]; omega) ?_
+      rw [htH, hIl]; omega
+    have h8 : derTSEQDecStop (pre.length + TE.length + TD.length + O1.length + TH.length + O2.length + V.length -
+        (pre.length + TE.length)) ⟨0, 0x73, (O1 ++ H).length⟩ = .ok () := by
+      refine stop_ok 0x73 (O1 ++ H) _ v73.1 (by omega) (by rw [hDl]; omega) ?_
+      rw [htD, hDl, hHlen]; omega
+    have h9 : derTSEQDecStop (pre.length + TE.length + TD.length + O1.length + TH.length + O2.length + V.length -
+        pre.length) ⟨0, 0x65, DD.length⟩ = .ok () := by
+      refine stop_ok 0x65 DD _ v65.1 (by omega) (by omega) ?_
+      rw [htE, hDDlen, hHlen]; omega
+    rw [decHatEsign_present body pre.length _ _ _ _ _ _ _ _ _ _ h0 h1 h2 h3 h4 h5 h6 h7 h8 h9, hC]
+    congr 2
+    rw [sE, List.length_append, hDDlen, hHlen]; omega
+
+/-! ### Layer 4: btokCVCBodyDec on the explicit code of a valid content -/
+
+theorem dateIsValid_len (d : Bytes) (h : dateIsValid d = true) : d.length = 6 := by
+  unfold dateIsValid at h
+  split at h
+  · rfl
+  · cases h
+
+theorem hatEidC_le (c : Cvc) (he : c.hatEid.length = 5) : (hatEidC c).length ≤ 60 := by
+  unfold hatEidC
+  split
+  · have h1 := tlvC_le 4 c.hatEid (ltU32 (by omega)) (by rw [he]; unfold W; omega)
+    have h2 := g_oidlen_eid
+    have h3 := tlvC_le 0x7F4C (oidC oid_eid_access ++ tlvC 4 c.hatEid) (ltU32 (by omega))
+      (by simp only [List.length_append]; unfold W; omega)
+    simp only [List.length_append] at h3
+    omega
+  · simp
+
+theorem hatEsignC_le (c : Cvc) (hs : c.hatEsign.length = 2) : (hatEsignC c).length ≤ 100 := by
+  unfold hatEsignC
+  split
+  · have h1 := tlvC_le 4 c.hatEsign (ltU32 (by omega)) (by rw [hs]; unfold W; omega)
+    have h2 := g_oidlen_esign
+    have h2' := g_oidlen_ext
+    have h3 := tlvC_le 0x7F4C (oidC oid_esign_access ++ tlvC 4 c.hatEsign) (ltU32 (by omega))
+      (by simp only [List.length_append]; unfold W; omega)
+    simp only [List.length_append] at h3
+    have h4 := tlvC_le 0x73 (oidC oid_esign_auth_ext ++ tlvC 0x7F4C (oidC oid_esign_access ++ tlvC 4 c.hatEsign))
+      (ltU32 (by omega)) (by simp only [List.length_append]; unfold W; omega)
+    simp only [List.length_append] at h4
+    have h5 := tlvC_le 0x65 (tlvC 0x73 (oidC oid_esign_auth_ext ++ tlvC 0x7F4C (oidC oid_esign_access ++ tlvC 4 c.hatEsign)))
+      (ltU32 (by omega)) (by unfold W; omega)
+    omega
+  · simp
+
+section
+attribute [local irreducible] tlvC tlHd hatEidC hatEsignC bodyContent bodyCode verC oidC
+
+theorem bodyDec_bodyCode (c : Cvc) (rest : Bytes) (hv : cvcSeemsValid c = true) (he : c.hatEid.length = 5)
+    (hs : c.hatEsign.length = 2) (hrest : rest.length + 2000 < 4294967296)
+    (hnext : isZero c.hatEsign = true → derStartsWith rest 0x65 = .err) :
+    bodyDec (bodyCode c ++ rest) = .ok ({ c with sig := [] }, (bodyCode c).length) := by
+  -- what validity gives
+  simp only [cvcSeemsValid, Bool.and_eq_true] at hv
+  obtain ⟨⟨⟨⟨⟨hna, hnh⟩, hdf⟩, hdu⟩, _⟩, hpl⟩ := hv
+  simp only [nameIsValid, Bool.and_eq_true, decide_eq_true_eq] at hna hnh
+  obtain ⟨⟨ha1, ha2⟩, hap⟩ := hna
+  obtain ⟨⟨hh1, hh2⟩, hhp⟩ := hnh
+  rw [nameMin_eq] at ha1 hh1
+  rw [nameMax_eq] at ha2 hh2
+  have hfl := dateIsValid_len _ hdf
+  have hul := dateIsValid_len _ hdu
+  have hpk : c.pubkey.length = 48 ∨ c.pubkey.length = 64 ∨ c.pubkey.length = 96 ∨ c.pubkey.length = 128 := by
+    simp only [pubkeyLenOk, pubLens_eq] at hpl; simpa using hpl
+  have hpk128 : c.pubkey.length ≤ 128 := by omega
+  have hbits : keyBits.contains (8 * c.pubkey.length) = true := by
+    rw [keyBits_eq]; rcases hpk with h | h | h | h <;> simp [h]
+  -- the pieces
+  have hvl : verC.length = 4 := by unfold verC; rfl
+  generalize hO : oidC oid_pubkey = O
+  have hOl : O.length ≤ 20 := by rw [← hO]; exact g_oidlen_pubkey
+  have hAl := tlvC_le 0x42 c.authority (ltU32 (by omega)) (by unfold W; omega)
+  have hBl := tlvC_le 3 (0 :: c.pubkey) (ltU32 (by omega)) (by simp only [List.length_cons]; unfold W; omega)
+  simp only [List.length_cons] at hBl
+  have hOBl : (O ++ bitC c.pubkey).length = O.length + (bitC c.pubkey).length := List.length_append
+  have hPl := tlvC_le 0x7F49 (O ++ bitC c.pubkey) (ltU32 (by omega)) (by rw [hOBl]; unfold bitC W; omega)
+  have hHl := tlvC_le 0x5F20 c.holder (ltU32 (by omega)) (by unfold W; omega)
+  have hFl := tlvC_le 0x5F25 c.from_ (ltU32 (by omega)) (by unfold W; omega)
+  have hUl := tlvC_le 0x5F24 c.until_ (ltU32 (by omega)) (by unfold W; omega)
+  have hE1l := hatEidC_le c he
+  have hE2l := hatEsignC_le c hs
+  have hB : bitC c.pubkey = tlvC 3 (0 :: c.pubkey) := rfl
+  rw [← hB] at hBl
+  have sP : tlvC 0x7F49 (O ++ bitC c.pubkey) = tlHd 0x7F49 (O ++ bitC c.pubkey) ++ (O ++ bitC c.pubkey) := tlvC_split _ _
+  have lP := tlHd_length 0x7F49 (O ++ bitC c.pubkey)
+  generalize hTP : tlHd 0x7F49 (O ++ bitC c.pubkey) = TP at *
+  have hPlen : (tlvC 0x7F49 (O ++ bitC c.pubkey)).length = TP.length + (O.length + (bitC c.pubkey).length) := by
+    rw [sP]; simp only [List.length_append]
+  have hKdef : bodyContent c = verC ++ tlvC 0x42 c.authority ++ tlvC 0x7F49 (O ++ bitC c.pubkey) ++ tlvC 0x5F20 c.holder ++
+      hatEidC c ++ tlvC 0x5F25 c.from_ ++ tlvC 0x5F24 c.until_ ++ hatEsignC c := by
+    unfold bodyContent; rw [hO]
+  have hKlen : (bodyContent c).length = 4 + (tlvC 0x42 c.authority).length + (TP.length + (O.length + (bitC c.pubkey).length)) +
+      (tlvC 0x5F20 c.holder).length + (hatEidC c).length + (tlvC 0x5F25 c.from_).length + (tlvC 0x5F24 c.until_).length +
+      (hatEsignC c).length := by
+    rw [hKdef]; simp only [List.length_append, hPlen, hvl]
+  have sB : bodyCode c = tlHd 0x7F4E (bodyContent c) ++ bodyContent c := by unfold bodyCode; exact tlvC_split _ _
+  have lB := tlHd_length 0x7F4E (bodyContent c)
+  generalize hT0 : tlHd 0x7F4E (bodyContent c) = T0 at *
+  have hT0l : T0.length ≤ 13 := by
+    have h4 := tCount_le4 0x7F4E (ltU32 (by omega))
+    have h9 := derLEnc_le9 (bodyContent c).length (by unfold W; omega)
+    omega
+  generalize hA : tlvC 0x42 c.authority = A at *
+  generalize hHd : tlvC 0x5F20 c.holder = Hd at *
+  generalize hBB : bitC c.pubkey = B at *
+  -- the buffer, right-nested
+  have hbody : bodyCode c ++ rest = T0 ++ (verC ++ (A ++ (TP ++ (O ++ (B ++ (Hd ++ (hatEidC c ++ (tlvC 0x5F25 c.from_ ++
+      (tlvC 0x5F24 c.until_ ++ (hatEsignC c ++ rest)))))))))) := by
+    rw [sB, hKdef, sP]; simp only [List.append_assoc]
+  generalize bodyCode c ++ rest = body at *
+  -- successive drops
+  have D2 : body.drop T0.length = verC ++ (A ++ (TP ++ (O ++ (B ++ (Hd ++ (hatEidC c ++ (tlvC 0x5F25 c.from_ ++
+      (tlvC 0x5F24 c.until_ ++ (hatEsignC c ++ rest))))))))) := by rw [hbody]; exact drop_at _ _ _ rfl
+  have B3 : body = (T0 ++ verC) ++ (A ++ (TP ++ (O ++ (B ++ (Hd ++ (hatEidC c ++ (tlvC 0x5F25 c.from_ ++
+      (tlvC 0x5F24 c.until_ ++ (hatEsignC c ++ rest))))))))) := by rw [hbody]; simp only [List.append_assoc]
+  have D3 := congrArg (List.drop (T0.length + 4)) B3
+  rw [drop_at _ _ _ (by simp only [List.length_append, hvl])] at D3
+  have B4 : body = (T0 ++ verC ++ A) ++ (TP ++ (O ++ (B ++ (Hd ++ (hatEidC c ++ (tlvC 0x5F25 c.from_ ++
+      (tlvC 0x5F24 c.until_ ++ (hatEsignC c ++ rest)))))))) := by rw [hbody]; simp only [List.append_assoc]
+  have D4 := congrArg (List.drop (T0.length + 4 + A.length)) B4
+  rw [drop_at _ _ _ (by simp only [List.length_append, hvl])] at D4
+  have B5 : body = (T0 ++ verC ++ A ++ TP) ++ (O ++ (B ++ (Hd ++ (hatEidC c ++ (tlvC 0x5F25 c.from_ ++
+      (tlvC 0x5F24 c.until_ ++ (hatEsignC c ++ rest))))))) := by rw [hbody]; simp only [List.append_assoc]
+  have D5 := congrArg (List.drop (T0.length + 4 + A.length + TP.length)) B5
+  rw [drop_at _ _ _ (by simp only [List.length_append, hvl])] at D5
+  have B6 : body = (T0 ++ verC ++ A ++ TP ++ O) ++ (B ++ (Hd ++ (hatEidC c ++ (tlvC 0x5F25 c.from_ ++
+      (tlvC 0x5F24 c.until_ ++ (hatEsignC c ++ rest)))))) := by rw [hbody]; simp only [List.append_assoc]
+  have D6 := congrArg (List.drop (T0.length + 4 + A.length + TP.length + O.length)) B6
+  rw [drop_at _ _ _ (by simp only [List.length_append, hvl])] at D6
+  have B8 : body = (T0 ++ verC ++ A ++ TP ++ O ++ B) ++ (Hd ++ (hatEidC c ++ (tlvC 0x5F25 c.from_ ++
+      (tlvC 0x5F24 c.until_ ++ (hatEsignC c ++ rest))))) := by rw [hbody]; simp only [List.append_assoc]
+  have D8 := congrArg (List.drop (T0.length + 4 + A.length + TP.length + O.length + B.length)) B8
+  rw [drop_at _ _ _ (by simp only [List.length_append, hvl])] at D8
+  have B9 : body = (T0 ++ verC ++ A ++ TP ++ O ++ B ++ Hd) ++ (hatEidC c ++ (tlvC 0x5F25 c.from_ ++
+      (tlvC 0x5F24 c.until_ ++ (hatEsignC c ++ rest)))) := by rw [hbody]; simp only [List.append_assoc]
+  have L9 : (T0 ++ verC ++ A ++ TP ++ O ++ B ++ Hd).length =
+      T0.length + 4 + A.length + TP.length + O.length + B.length + Hd.length := by
+    simp only [List.length_append, hvl]
+  have B10 : body = (T0 ++ verC ++ A ++ TP ++ O ++ B ++ Hd ++ hatEidC c) ++ (tlvC 0x5F25 c.from_ ++
+      (tlvC 0x5F24 c.until_ ++ (hatEsignC c ++ rest))) := by rw [hbody]; simp only [List.append_assoc]
+  have D10 := congrArg (List.drop (T0.length + 4 + A.length + TP.length + O.length + B.length + Hd.length + (hatEidC c).length)) B10
+  rw [drop_at _ _ _ (by simp only [List.length_append, hvl])] at D10
+  have B11 : body = (T0 ++ verC ++ A ++ TP ++ O ++ B ++ Hd ++ hatEidC c ++ tlvC 0x5F25 c.from_) ++
+      (tlvC 0x5F24 c.until_ ++ (hatEsignC c ++ rest)) := by rw [hbody]; simp only [List.append_assoc]
+  have D11 := congrArg (List.drop (T0.length + 4 + A.length + TP.length + O.length + B.length + Hd.length + (hatEidC c).length +
+      (tlvC 0x5F25 c.from_).length)) B11
+  rw [drop_at _ _ _ (by simp only [List.length_append, hvl])] at D11
+  have B12 : body = (T0 ++ verC ++ A ++ TP ++ O ++ B ++ Hd ++ hatEidC c ++ tlvC 0x5F25 c.from_ ++ tlvC 0x5F24 c.until_) ++
+      (hatEsignC c ++ rest) := by rw [hbody]; simp only [List.append_assoc]
+  have L12 : (T0 ++ verC ++ A ++ TP ++ O ++ B ++ Hd ++ hatEidC c ++ tlvC 0x5F25 c.from_ ++ tlvC 0x5F24 c.until_).length =
+      T0.length + 4 + A.length + TP.length + O.length + B.length + Hd.length + (hatEidC c).length +
+      (tlvC 0x5F25 c.from_).length + (tlvC 0x5F24 c.until_).length := by
+    simp only [List.length_append, hvl]
+  -- decoder calls
+  have H1 : derTSEQDecStart body 0x7F4E = .ok (⟨0, 0x7F4E, (bodyContent c).length⟩, T0.length) := by
+    have := seqStart_tlvC 0x7F4E (bodyContent c) rest v7F4E.1 v7F4E.2 (ltU32 (by omega)) (by unfold SIZE_MAX; omega)
+    rw [tlvC_split, hT0, ← lB] at this
+    rw [hbody]
+    have e : T0 ++ bodyContent c ++ rest = T0 ++ (verC ++ (A ++ (TP ++ (O ++ (B ++ (Hd ++ (hatEidC c ++ (tlvC 0x5F25 c.from_ ++
+        (tlvC 0x5F24 c.until_ ++ (hatEsignC c ++ rest)))))))))) := by
+      rw [hKdef, sP]; simp only [List.append_assoc]
+    rw [← e]; exact this
+  have H2 : derTSIZEDec2 (body.drop T0.length) 0x5F29 0 = .ok 4 := by rw [D2]; exact sizeDec2_verC _
+  have H3 : derTPSTRDec (body.drop (T0.length + 4)) 0x42 = .ok (c.authority, A.length) := by
+    rw [D3, ← hA]
+    refine pstrDec_tlvC 0x42 c.authority _ hap v42 (ltU32 (by omega)) ?_
+    simp only [List.length_append]; unfold W; omega
+  have H4 : derTSEQDecStart (body.drop (T0.length + 4 + A.length)) 0x7F49 = .ok (⟨0, 0x7F49, (O ++ B).length⟩, TP.length) := by
+    rw [D4, lP]
+    have := seqStart_tlvC 0x7F49 (O ++ B) (Hd ++ (hatEidC c ++ (tlvC 0x5F25 c.from_ ++ (tlvC 0x5F24 c.until_ ++ (hatEsignC c ++ rest)))))
+      v7F49.1 v7F49.2 (ltU32 (by omega)) (by rw [hOBl]; unfold SIZE_MAX; omega)
+    rw [sP] at this
+    have e : TP ++ (O ++ B) ++ (Hd ++ (hatEidC c ++ (tlvC 0x5F25 c.from_ ++ (tlvC 0x5F24 c.until_ ++ (hatEsignC c ++ rest))))) =
+        TP ++ (O ++ (B ++ (Hd ++ (hatEidC c ++ (tlvC 0x5F25 c.from_ ++ (tlvC 0x5F24 c.until_ ++ (hatEsignC c ++ rest))))))) := by
+      simp only [List.append_assoc]
+    rw [← e]; exact this
+  have H5 : derOIDDec2 (body.drop (T0.length + 4 + A.length + TP.length)) oid_pubkey = .ok O.length := by
+    rw [D5, ← hO]
+    refine oidDec2_oidC oid_pubkey _ g_oid_pubkey ?_
+    rw [hO]; simp only [List.length_append]; unfold W; omega
+  have H6 : derTBITDec (body.drop (T0.length + 4 + A.length + TP.length + O.length)) 3 =
+      .ok (c.pubkey, 8 * c.pubkey.length, B.length) := by
+    rw [D6, ← hBB]
+    refine bitDec_bitC c.pubkey _ ?_ (by unfold W; omega)
+    simp only [List.length_append]; unfold W; omega
+  have H7 : derTSEQDecStop (T0.length + 4 + A.length + TP.length + O.length + B.length - (T0.length + 4 + A.length))
+      ⟨0, 0x7F49, (O ++ B).length⟩ = .ok () := by
+    refine stop_ok 0x7F49 (O ++ B) _ v7F49.1 (by omega) (by rw [hOBl]; omega) ?_
+    rw [hTP, hOBl]; omega
+  have H8 : derTPSTRDec (body.drop (T0.length + 4 + A.length + TP.length + O.length + B.length)) 0x5F20 = .ok (c.holder, Hd.length) := by
+    rw [D8, ← hHd]
+    refine pstrDec_tlvC 0x5F20 c.holder _ hhp v5F20 (ltU32 (by omega)) ?_
+    simp only [List.length_append]; unfold W; omega
+  have H9 := hatEid_fact c body _ (tlvC 0x5F24 c.until_ ++ (hatEsignC c ++ rest)) c.from_ B9 he
+    (by simp only [List.length_append]; unfold W; omega)
+  rw [L9] at H9
+  have H10 : derTOCTDec2 (body.drop (T0.length + 4 + A.length + TP.length + O.length + B.length + Hd.length + (hatEidC c).length))
+      0x5F25 6 = .ok (c.from_, (tlvC 0x5F25 c.from_).length) := by
+    rw [D10, ← hfl]
+    refine octDec2_tlvC 0x5F25 c.from_ _ v5F25 (ltU32 (by omega)) ?_
+    simp only [List.length_append]; unfold W; omega
+  have H11 : derTOCTDec2 (body.drop (T0.length + 4 + A.length + TP.length + O.length + B.length + Hd.length + (hatEidC c).length +
+      (tlvC 0x5F25 c.from_).length)) 0x5F24 6 = .ok (c.until_, (tlvC 0x5F24 c.until_).length) := by
+    rw [D11, ← hul]
+    refine octDec2_tlvC 0x5F24 c.until_ _ v5F24 (ltU32 (by omega)) ?_
+    simp only [List.length_append]; unfold W; omega
+  have H12 := hatEsign_fact c body _ rest B12 hs (by omega) hnext
+  rw [L12] at H12
+  have H13 : derTSEQDecStop (T0.length + 4 + A.length + TP.length + O.length + B.length + Hd.length + (hatEidC c).length +
+      (tlvC 0x5F25 c.from_).length + (tlvC 0x5F24 c.until_).length + (hatEsignC c).length)
+      ⟨0, 0x7F4E, (bodyContent c).length⟩ = .ok () := by
+    refine stop_ok 0x7F4E (bodyContent c) _ v7F4E.1 (by omega) (by omega) ?_
+    rw [hT0, hKlen]; omega
+  have G3 : (decide (nameMin ≤ c.authority.length) && decide (c.authority.length ≤ nameMax)) = true := by
+    rw [nameMin_eq, nameMax_eq]; simp [ha1, ha2]
+  have G8 : (decide (nameMin ≤ c.holder.length) && decide (c.holder.length ≤ nameMax)) = true := by
+    rw [nameMin_eq, nameMax_eq]; simp [hh1, hh2]
+  have := bodyDec_core body _ _ _ _ _ _ _ _ _ _ _ _ _ _ _ _ _ _ _ _ _ H1 H2 H3 G3 H4 H5 H6 hbits H7 H8 G8 H9 H10 H11 H12 H13
+  rw [this]
+  congr 2
+  rw [sB, List.length_append, hKlen]; omega
+
+end
 
 end Bee2V.C17
